@@ -8,9 +8,13 @@
     the reference order [vcmp]: that rests on C18 (int_order, float_order,
     str_order: the encoded keys order like the values) and C17 (the container).
 
-    Three statements are FALSE for the faithful model and are kept as
+    The index range scan treats a bound that IsInfMin()/IsInfMax() as "no bound"
+    (RangeScanWithIndexExecutor.Init), which [scan_in] models.
+
+    Two statements are FALSE for the faithful model and are kept as
     [Definition ... : Prop] with a [_refuted] witness and a [_partial] theorem:
-    [compare_matches_reference], [range_superset], [scan_plan_equiv]. *)
+    [compare_matches_reference] (the sentinel tests inside the Compare methods) and
+    [scan_plan_equiv] (through those methods, and through NULL in an indexed column). *)
 From Coq Require Import List NArith ZArith Bool Permutation.
 From SDB Require Import Base.Bytes Model.Codec Model.SqlRef Model.Query Proofs.QueryProofs.
 Import ListNotations.
@@ -72,43 +76,27 @@ Print Assumptions walk_order.
 
 (** * Ranges *)
 
-(** Full statement (false): every value satisfying the comparisons on an indexed
-    column lies inside the range handed to the index scan. *)
-Definition range_superset : Prop := forall sch p st c v,
-  has_or p = false -> lits_ok sch p -> walk sch p = Some st -> col_indexed sch c = true ->
-  v <> VNull -> val_ok (col_type sch c) v -> conj_on c p v ->
-  in_range (rmin (ws_rng st c)) (rmax (ws_rng st c)) v = true.
-
-Theorem range_superset_refuted : ~ range_superset.
-Proof. exact range_superset_refuted_lemma. Qed.
-Print Assumptions range_superset_refuted.
-
-(** It holds for the values not cut off by a bound that is still a sentinel. *)
-Theorem range_superset_partial : forall sch p st c v,
+(** Every value satisfying the comparisons on an indexed column is covered by the
+    scan of the derived range — all three types, any AND-tree. *)
+Theorem range_superset : forall sch p st c v,
   has_or p = false -> lits_ok sch p -> walk sch p = Some st -> col_indexed sch c = true ->
   v <> VNull -> conj_on c p v ->
-  bounds_cover (rmin (ws_rng st c)) (rmax (ws_rng st c)) v ->
-  in_range (rmin (ws_rng st c)) (rmax (ws_rng st c)) v = true.
-Proof. exact range_superset_partial_lemma. Qed.
-Print Assumptions range_superset_partial.
+  scan_in (rmin (ws_rng st c)) (rmax (ws_rng st c)) v = true.
+Proof. exact range_superset_lemma. Qed.
+Print Assumptions range_superset.
 
-(** Integer columns: unconditionally. *)
-Theorem range_superset_int : forall sch p st c v,
-  has_or p = false -> lits_ok sch p -> walk sch p = Some st -> col_indexed sch c = true ->
-  col_type sch c = TInt -> v <> VNull -> val_ok TInt v -> conj_on c p v ->
-  in_range (rmin (ws_rng st c)) (rmax (ws_rng st c)) v = true.
-Proof. exact range_superset_int_lemma. Qed.
-Print Assumptions range_superset_int.
-
-(** When findBestScan attaches no Selection (range exact, both bounds inclusive,
-    touchOnly) the scanned interval is exactly the predicate. *)
+(** When findBestScan attaches no Selection (no bound set inclusively to a
+    sentinel, range exact, both bounds inclusive, touchOnly) the scanned interval
+    is exactly the predicate. *)
 Theorem range_exact_when_not_rechecked : forall sch p st c e,
   has_or p = false -> lits_ok sch p -> walk sch p = Some st -> col_indexed sch c = true ->
   range_empty (ws_rng st c) = false ->
+  cv_is_inf_min (rmin (ws_rng st c)) && rmin_inc (ws_rng st c) = false ->
+  cv_is_inf_max (rmax (ws_rng st c)) && rmax_inc (ws_rng st c) = false ->
   ws_inexact st c = false -> rmin_inc (ws_rng st c) = true -> rmax_inc (ws_rng st c) = true ->
   scan_exp (ws_related st) = Some e -> touch_only e c = true ->
   forall r, nth c r VNull <> VNull ->
-    in_range (rmin (ws_rng st c)) (rmax (ws_rng st c)) (nth c r VNull) = eval_pred r p.
+    scan_in (rmin (ws_rng st c)) (rmax (ws_rng st c)) (nth c r VNull) = eval_pred r p.
 Proof. exact range_exact_lemma. Qed.
 Print Assumptions range_exact_when_not_rechecked.
 
@@ -126,7 +114,7 @@ Print Assumptions scan_plan_equiv_refuted.
 
 (** For AND-trees of any shape, every candidate, all tables: with [sel_safe] (no
     stored value / literal pair in [cv_bad]) and [plan_ok] (the scanned column
-    holds no NULL and nothing beyond a bound that is still a sentinel). *)
+    holds no NULL). *)
 Theorem scan_plan_equiv_partial : forall sch p cols t l pl,
   has_or p = false -> lits_ok sch p -> table_ok sch t -> sel_safe p t ->
   candidates sch p cols = Some l -> In pl l -> plan_ok pl t ->
@@ -155,6 +143,14 @@ Theorem chosen_plan_equiv : forall sch p cols t k pl,
 Proof. exact chosen_plan_equiv_lemma. Qed.
 Print Assumptions chosen_plan_equiv.
 
+(** The same with the NULL condition stated on the table. *)
+Theorem scan_plan_equiv_nonnull : forall sch p cols t l pl,
+  has_or p = false -> lits_ok sch p -> table_ok sch t -> sel_safe p t -> indexed_nonnull sch t ->
+  candidates sch p cols = Some l -> In pl l ->
+  exists out, run_plan pl t = Some out /\ Permutation out (sel cols p t).
+Proof. exact scan_plan_equiv_nonnull_lemma. Qed.
+Print Assumptions scan_plan_equiv_nonnull.
+
 (** Integer-only tables: the only side condition left is "no NULL in an indexed column". *)
 Theorem scan_plan_equiv_int : forall sch p cols t l pl,
   all_int sch -> has_or p = false -> lits_ok sch p -> table_ok sch t -> indexed_nonnull sch t ->
@@ -163,16 +159,17 @@ Theorem scan_plan_equiv_int : forall sch p cols t l pl,
 Proof. exact scan_plan_equiv_int_lemma. Qed.
 Print Assumptions scan_plan_equiv_int.
 
-(** [plan_ok] from a condition on the table alone. *)
-Theorem plan_ok_when_in_window : forall sch p cols t l pl,
-  has_or p = false -> lits_ok sch p ->
-  (forall c, col_indexed sch c = true -> forall r, In r t ->
-     nth c r VNull <> VNull /\ window_ok (col_type sch c) (nth c r VNull)) ->
-  candidates sch p cols = Some l -> In pl l -> plan_ok pl t.
-Proof. exact plan_ok_of_window. Qed.
-Print Assumptions plan_ok_when_in_window.
+(** Both side conditions can be decided on the statement and the table; a plan
+    aborts exactly when its index scan meets a NULL entry. *)
+Theorem indexed_nonnull_decidable : forall sch t,
+  has_null_in_indexed_col sch t = false -> indexed_nonnull sch t.
+Proof. exact has_null_false. Qed.
+Print Assumptions indexed_nonnull_decidable.
 
-(** [sel_safe] can be decided on the statement and the table. *)
+Theorem abort_iff_null_hit : forall pl t, run_plan pl t = None <-> plan_hits_null pl t = true.
+Proof. exact run_plan_none_iff. Qed.
+Print Assumptions abort_iff_null_hit.
+
 Theorem sel_safe_decidable : forall p t, stmt_hits_bad p t = false -> sel_safe p t.
 Proof. exact stmt_hits_bad_false. Qed.
 Print Assumptions sel_safe_decidable.
@@ -184,7 +181,7 @@ Theorem or_plan_equiv : forall sch p cols t,
 Proof. exact or_plan_equiv_lemma. Qed.
 Print Assumptions or_plan_equiv.
 
-(** * The three ways [scan_plan_equiv] fails, each with every other hypothesis in place *)
+(** * The two ways [scan_plan_equiv] fails, each with every other hypothesis in place *)
 
 (** WHERE s < 'SamehadaDBInfMaxValue' returns 'T' ([sel_safe] fails). *)
 Theorem sentinel_literal_refuted :
@@ -199,19 +196,7 @@ Theorem sentinel_literal_refuted :
 Proof. exact sentinel_literal_refuted_lemma. Qed.
 Print Assumptions sentinel_literal_refuted.
 
-(** WHERE s >= 'A' through the index misses 'alice' ([plan_ok] fails: sentinel bound). *)
-Theorem sentinel_bound_refuted :
-  let sch := [(TStr, true)] : schema in
-  let p := PCmp 0 OGe (VStr str_A) in
-  let t := [[VStr str_alice]] : table in
-  let pl := PProjection (PSelection (PIndexRange 0 TStr (VStr str_A) (VStr inf_max_str)) p) [O] in
-  has_or p = false /\ lits_ok sch p /\ table_ok sch t /\ sel_safe p t /\
-  (exists l, candidates sch p [O] = Some l /\ In pl l) /\
-  run_plan pl t = Some [] /\ sel [O] p t = [[VStr str_alice]].
-Proof. exact sentinel_bound_refuted_lemma. Qed.
-Print Assumptions sentinel_bound_refuted.
-
-(** WHERE a = 0 through the index aborts when some row has a IS NULL ([plan_ok] fails: NULL). *)
+(** WHERE a = 0 through the index aborts when some row has a IS NULL ([plan_ok] fails). *)
 Theorem null_in_index_refuted :
   let sch := [(TInt, true)] : schema in
   let p := PCmp 0 OEq (VInt 0) in
@@ -219,7 +204,8 @@ Theorem null_in_index_refuted :
   let pl := PProjection (PIndexRange 0 TInt (VInt 0) (VInt 0)) [O] in
   all_int sch /\ has_or p = false /\ lits_ok sch p /\ table_ok sch t /\
   (exists l, candidates sch p [O] = Some l /\ In pl l) /\
-  run_plan pl t = None /\ sel [O] p t = [[VInt 0]].
+  run_plan pl t = None /\ sel [O] p t = [[VInt 0]] /\
+  has_null_in_indexed_col sch t = true /\ plan_hits_null pl t = true.
 Proof. exact null_in_index_refuted_lemma. Qed.
 Print Assumptions null_in_index_refuted.
 
